@@ -29,7 +29,7 @@ def make_membrane(rng, mix, n_exp=None, stated=True):
                 temps.append(t)
         for j, t in enumerate(temps):
             p = p0 * math.exp(-ea / R * (1 / t - 1 / t0)) * (1.0 if n == 1 else rng.uniform(0.9, 1.1))
-            units = rng.choice([KG, KG, "SI", "GPU"])
+            units = gen.tstr(rng, rng.choice([KG, KG, "SI", "GPU"]))
             exps.append(pv.IdealExperiment(name="e", temperature=t, component=comp,
                                            permeance=pv.Permeance(value=p).convert(units, comp),
                                            activation_energy=(ea if (stated or n == 1) else None)))
@@ -105,7 +105,7 @@ def scenario(rng, kind=None, mode=None, removal=None, builtin_p=0.6, prog_p=0.4)
     T0 = rng.uniform(290.0, 380.0)
     sc = {"mix": mix, "kind": kind, "mode": mode, "model": model, "T0": T0,
           "N": rng.choice([1, 2, 3, 5, 8, 12]), "A": gen.logu(rng, 1e-2, 1e2), "m0": gen.logu(rng, 1e-1, 1e3),
-          "x0": rng.uniform(0.05, 0.95), "basis": rng.choice(["weight", "weight", "molar"]),
+          "x0": rng.uniform(0.05, 0.95), "basis": gen.tstr(rng, rng.choice(["weight", "weight", "molar"])),
           "Tperm": None, "pperm": None, "prog": None, "prec": rng.choice([5e-5, 1e-6, 1e-4]),
           "membrane": make_membrane(rng, mix), "curves": None, "P0": None,
           "removal": removal if removal is not None else (gen.logu(rng, 1e-4, 0.04) if rng.random() < 0.7 else gen.logu(rng, 1e-8, 1e-4))}
@@ -120,9 +120,9 @@ def scenario(rng, kind=None, mode=None, removal=None, builtin_p=0.6, prog_p=0.4)
         single_off = rng.random() < 0.5        # single curve at a temperature different from T0
         sc["curves"] = make_curve_set(rng, mix, t_center=None if single_off else T0,
                                       n_curves=None if single_off else rng.choice([1, 2, 3]),
-                                      ctype=rng.choice(["weight", "weight", "molar"]))
+                                      ctype=gen.tstr(rng, rng.choice(["weight", "weight", "molar"])))
         if rng.random() < 0.5:
-            sc["P0"] = (gen.logu(rng, 1e-3, 0.2), gen.logu(rng, 1e-5, 1e-2), rng.choice([KG, KG, "SI", "GPU"]))
+            sc["P0"] = (gen.logu(rng, 1e-3, 0.2), gen.logu(rng, 1e-5, 1e-2), gen.tstr(rng, rng.choice([KG, KG, "SI", "GPU"])))
         sc["warmup"] = rng.random() < 0.4
         # explicit orders / zero points for the fits (None = let the search choose), the options the call implies
         sc["fitopts"] = {"n_first": rng.choice([None, None, 0, 1]), "m_first": rng.choice([None, None, 0, 1]),
@@ -486,10 +486,10 @@ def nicurve_trace(rng):
     cs = make_curve_set(rng, mix, t_center=None if single_off else T, n_curves=None if single_off else rng.choice([1, 2, 3]))
     perv = pv.Pervaporation(membrane=membrane, mixture=mix)
     sc = {"mix": mix, "curves": cs}
-    basis = rng.choice(["weight", "weight", "molar"])
+    basis = gen.tstr(rng, rng.choice(["weight", "weight", "molar"]))
     x0 = rng.uniform(0.1, 0.6)
     c0 = pv.Composition(p=x0, type=basis)
-    model = rng.choice(["NRTL", "UNIQUAC"])
+    model = gen.tstr(rng, rng.choice(["NRTL", "UNIQUAC"]))
     mode = rng.choice(["vac", "temp", "press"])
     n = rng.randrange(2, 7)
     P0 = None
@@ -501,7 +501,7 @@ def nicurve_trace(rng):
                      "include_zero": rng.random() < 0.3}
     kw.update(sc["fitopts"])
     if rng.random() < 0.5:
-        u = rng.choice([KG, "SI", "GPU"])
+        u = gen.tstr(rng, rng.choice([KG, "SI", "GPU"]))
         P0 = (pv.Permeance(gen.logu(rng, 1e-3, 0.2)).convert(u, mix.first_component),
               pv.Permeance(gen.logu(rng, 1e-5, 1e-2)).convert(u, mix.second_component))
         kw["initial_permeances"] = P0
